@@ -7,6 +7,7 @@ import (
 	"strings"
 
 	gnarklogger "github.com/consensys/gnark/logger"
+	"github.com/rs/zerolog"
 
 	"verifsim/checks"
 	"verifsim/engine"
@@ -14,6 +15,7 @@ import (
 
 func main() {
 	gnarklogger.Disable()
+	zerolog.SetGlobalLevel(zerolog.Disabled) // the repository logs through zerolog to stderr
 	o := engine.ParseFlags()
 	chk := checks.Get(o.Prop)
 	if chk == nil {
